@@ -50,10 +50,13 @@ def spaces(tier):
 
     def gen_allpairs():
         for alpha, L in uni:
-            for k in (1, 2, 3, 4):
+            for k in (1, 2, 3, 4) if q else (1, 2, 3):
                 for order in ("fwd", "rev"):
                     yield ("allpairs", alpha, L, k, order)
         if not q:
+            for alpha, L in (("AC", 7), ("ACD", 5), ("ACDE", 4)):
+                yield ("allpairs", alpha, L, 4, "fwd")
+                yield ("allpairs", alpha, L, 4, "rev")
             for alpha, L in (("AC", 10), ("ACD", 7)):       # the largest universes: radii 1..2 only (at k>=3 nearly every pair is a neighbour)
                 for k in (1, 2):
                     yield ("allpairs", alpha, L, k, "fwd")
@@ -91,7 +94,7 @@ def spaces(tier):
                 yield ("family", si, 2, "ACSG", 3)
 
     return [
-        Space("all-pairs-of-universe", gen_allpairs, "whole universe U(alphabet,L) as one list, fwd and reversed order: %s x k in 1..4, k=L+1; thorough also U(AC,10), U(ACD,7) x k in 1..2" % uni, per_case=True),
+        Space("all-pairs-of-universe", gen_allpairs, "whole universe U(alphabet,L) as one list, fwd and reversed order: %s x k in 1..4 (thorough: 1..3, and k=4 on the quick universes), k=L+1; thorough also U(AC,10), U(ACD,7) x k in 1..2" % uni, per_case=True),
         Space("size-boundary-and-non-ascii", gen_size, "collections of 257, 1025 and 65560 strings whose positions next to 0, 256, 1024, 65536 and the end hold a clonal family (fillers mutually >= 2 edits apart); universes over multi-byte alphabets {A, alpha, e-acute} and {alpha, CJK}", per_case=True),
         Space("all-lists", gen_lists, "all ordered lists with repetition: Lists(U(AC,2),3) [quick] / Lists(U(AC,2),4)+Lists(U(AC,3),3) [thorough] x k in 1..3"),
         Space("same-container-new-contents", gen_reuse, "one list / ndarray object searched, overwritten in place with every other list of the same length over U(AC,2) (lengths 2..3) and searched again: the second answer must be that of the new contents", shards=32),
@@ -186,7 +189,7 @@ def check_case(case, acc):
         acc.cls("shorter-than-k", sum(1 for s in seqs if len(s) < k))
         acc.cls("homopolymer", sum(1 for s in seqs if len(s) >= 2 and len(set(s)) == 1))
         acc.extra["pairs_decided"] += len(seqs) * (len(seqs) - 1)
-    for name, fn in _engines() + (_series_engines() if len(seqs) < 5000 else ()):
+    for name, fn in _engines() + (_series_engines() if len(seqs) < 5000 and (k <= 2 or len(seqs) <= 400) else ()):
         res = acc.call(fn, list(seqs), k)
         bad = diagnose(res, expected)
         if bad is None:
